@@ -325,7 +325,10 @@ func NewMux(opts ...MuxOption) (*Mux, error) {
 		}
 	}
 	muxOpts.codecsByName = make(map[string]Codec)
-	for _, v := range muxOpts.codecs {
+	for k, v := range muxOpts.codecs {
+		if !strings.Contains(k, "/") {
+			continue // keyed by message name (google.api.HttpBody): not a message codec
+		}
 		muxOpts.codecsByName[v.Name()] = v
 	}
 	for k := range muxOpts.codecs {
